@@ -9,8 +9,6 @@ HERE = os.path.dirname(os.path.dirname(os.path.abspath(__file__)))
 sys.path.insert(0, HERE)
 
 NOT_APPLICABLE = {
-    'C22': 'READ/DATA order: the data pointer walks runtime bytecode; no structural clause is a meaningful necessary '
-           'condition (static analysis cannot bound program text); see DESIGN.md section 6',
     'C24': 'sequential-file round trip is a property of values pushed through the input_entry character state machine '
            'and host files; no clause is visible in code shape; see DESIGN.md section 6',
     'C32': 'PAINT fills exactly the region: a connectivity property of runtime bitmaps; the only-inside-the-viewport '
